@@ -1,56 +1,24 @@
 // C20: asmline's outputs and exit status reflect the library result (differential CLI <-> in-process library).
 #include "prog.hpp"
 #include "props.hpp"
-#include <poll.h>
-#include <spawn.h>
-#include <sys/wait.h>
+#include "cli.hpp"
 
 using namespace prog;
-extern char **environ;
+using namespace cli;
 
 static const Pool &pool(hz::Ctx &ctx) { static Pool p = build_pool(ctx.seed, 2); return p; }
-static std::string asmline_path() { const char *e = getenv("VERIF_ASMLINE"); if (e) return e; const char *root = getenv("VERIF_ROOT"); return std::string(root ? root : "/verif") + "/build/plain/asmline"; }
-static std::string tmpdir() { static std::string d; if (d.empty()) { const char *root = getenv("VERIF_ROOT"); std::string rb = std::string(root ? root : "/verif") + "/build"; d = rb + "/tmp"; mkdir(rb.c_str(), 0755); mkdir(d.c_str(), 0755); d += "/c" + std::to_string(getpid()); mkdir(d.c_str(), 0755); } return d; }
-
-struct Spawned { int status = -1; std::string out; bool ok = false; };
-static Spawned spawn(const std::vector<std::string> &argv, const std::string &stdin_data, bool use_stdin, const std::string &cwd) {
-  Spawned r; int inp[2], outp[2]; if (pipe(inp) || pipe(outp)) return r;
-  // keep the pipe ends away from the standard descriptors whatever the environment looks like
-  for (int *fd : {&inp[0], &inp[1], &outp[0], &outp[1]}) { int hi = fcntl(*fd, F_DUPFD_CLOEXEC, 20); if (hi >= 0) { close(*fd); *fd = hi; } }
-  posix_spawn_file_actions_t fa; posix_spawn_file_actions_init(&fa);
-  posix_spawn_file_actions_adddup2(&fa, inp[0], 0); posix_spawn_file_actions_adddup2(&fa, outp[1], 1);
-  posix_spawn_file_actions_addopen(&fa, 2, "/dev/null", O_WRONLY, 0);
-  posix_spawn_file_actions_addchdir_np(&fa, cwd.c_str());   // output names are passed relative: asmline refuses -o names containing a dot, and the directory may
-  posix_spawn_file_actions_addclose(&fa, inp[1]); posix_spawn_file_actions_addclose(&fa, outp[0]);
-  std::vector<char *> av; for (auto &a : argv) av.push_back(const_cast<char *>(a.c_str())); av.push_back(nullptr);
-  pid_t pid; int e = posix_spawn(&pid, av[0], &fa, nullptr, av.data(), environ);
-  posix_spawn_file_actions_destroy(&fa); close(inp[0]); close(outp[1]);
-  if (e) { close(inp[1]); close(outp[0]); return r; }
-  // feed stdin and drain stdout without deadlock
-  size_t woff = 0; bool wopen = true; if (!use_stdin || stdin_data.empty()) { close(inp[1]); wopen = false; }
-  fcntl(outp[0], F_SETFL, O_NONBLOCK); if (wopen) fcntl(inp[1], F_SETFL, O_NONBLOCK);
-  bool ropen = true; char buf[65536];
-  while (ropen) {
-    struct pollfd p[2]; int n = 0; p[n].fd = outp[0]; p[n].events = POLLIN; n++; if (wopen) { p[n].fd = inp[1]; p[n].events = POLLOUT; n++; }
-    if (poll(p, n, 20000) <= 0) break;
-    if (p[0].revents & (POLLIN | POLLHUP)) { ssize_t k = read(outp[0], buf, sizeof buf); if (k > 0) r.out.append(buf, k); else if (k == 0) ropen = false; }
-    if (wopen && (p[1].revents & (POLLOUT | POLLERR | POLLHUP))) { ssize_t k = write(inp[1], stdin_data.data() + woff, stdin_data.size() - woff); if (k > 0) woff += k; if (k < 0 && errno != EAGAIN) { close(inp[1]); wopen = false; } if (woff >= stdin_data.size() && wopen) { close(inp[1]); wopen = false; } }
-  }
-  if (wopen) close(inp[1]); close(outp[0]);
-  int st = 0; waitpid(pid, &st, 0); r.status = WIFEXITED(st) ? WEXITSTATUS(st) : 128 + (WIFSIGNALED(st) ? WTERMSIG(st) : 0); r.ok = true; return r;
-}
-
 // mode flags in command-line order
 static const char *MODEFLAGS[] = {"--nasm-mov-imm", "--strict-mov-imm", "--smart-mov-imm", "--nasm-sib", "--strict-sib", "--nasm-sib-index-base-swap", "--strict-sib-index-base-swap", "--nasm-sib-no-base", "--strict-sib-no-base", "-n", "-t", "-s", "--nasm", "--strict", "--smart"};
-struct CliCase { int longname = 0; /* length of the -o / -P file name (0 = short default) */ std::vector<int> modeflags; bool p = false, r = false, from_stdin = false; int outkind = 0 /*0 none 1 -P 2 -o 3 -P unwritable*/; int chunk = 0, brk = 0; std::vector<std::string> lines; int progkind = 0 /*0 pool 1 failing 2 executable*/; uint64_t retval = 0; bool final_newline = true; };
-static std::string ser20(const CliCase &c) { std::string s = "C20|"; for (size_t i = 0; i < c.modeflags.size(); i++) s += (i ? "," : "") + std::to_string(c.modeflags[i]); s += "|" + std::to_string(c.p) + "|" + std::to_string(c.r) + "|" + std::to_string(c.from_stdin) + "|" + std::to_string(c.outkind) + "|" + std::to_string(c.chunk) + "|" + std::to_string(c.brk) + "|" + std::to_string(c.progkind) + "|" + std::to_string(c.retval) + "|" + std::to_string(c.final_newline + 2 * c.longname); for (auto &l : c.lines) s += "|" + l; return s; }
-static bool parse20(const std::string &s, CliCase &c) { auto f = split(s, '|'); if (f.size() < 11 || f[0] != "C20") return false; for (auto &x : split(f[1], ',')) if (!x.empty()) c.modeflags.push_back(atoi(x.c_str())); c.p = f[2] == "1"; c.r = f[3] == "1"; c.from_stdin = f[4] == "1"; c.outkind = atoi(f[5].c_str()); c.chunk = atoi(f[6].c_str()); c.brk = atoi(f[7].c_str()); c.progkind = atoi(f[8].c_str()); c.retval = strtoull(f[9].c_str(), nullptr, 10); { int v = atoi(f[10].c_str()); c.final_newline = v & 1; c.longname = v / 2; } c.lines.assign(f.begin() + 11, f.end()); return true; }
+struct CliCase { int longname = 0; /* length of the -o / -P file name (0 = short default) */ std::vector<int> modeflags; bool p = false, r = false, from_stdin = false; int outkind = 0 /*0 none 1 -P 2 -o 3 -P unwritable*/; int chunk = 0, brk = 0; std::vector<std::string> lines; int progkind = 0 /*0 pool 1 failing 2 executable*/; uint64_t retval = 0; bool final_newline = true; int sep = 0; /* line separator: 0 LF, 1 CRLF, 2 bare CR */ };
+static std::string ser20(const CliCase &c) { std::string s = "C20|"; for (size_t i = 0; i < c.modeflags.size(); i++) s += (i ? "," : "") + std::to_string(c.modeflags[i]); s += "|" + std::to_string(c.p) + "|" + std::to_string(c.r) + "|" + std::to_string(c.from_stdin) + "|" + std::to_string(c.outkind) + "|" + std::to_string(c.chunk) + "|" + std::to_string(c.brk) + "|" + std::to_string(c.progkind) + "|" + std::to_string(c.retval) + "|" + std::to_string(c.final_newline + 2 * c.longname + 100000 * c.sep); for (auto &l : c.lines) s += "|" + l; return s; }
+static bool parse20(const std::string &s, CliCase &c) { auto f = split(s, '|'); if (f.size() < 11 || f[0] != "C20") return false; for (auto &x : split(f[1], ',')) if (!x.empty()) c.modeflags.push_back(atoi(x.c_str())); c.p = f[2] == "1"; c.r = f[3] == "1"; c.from_stdin = f[4] == "1"; c.outkind = atoi(f[5].c_str()); c.chunk = atoi(f[6].c_str()); c.brk = atoi(f[7].c_str()); c.progkind = atoi(f[8].c_str()); c.retval = strtoull(f[9].c_str(), nullptr, 10); { int v = atoi(f[10].c_str()); c.sep = v / 100000; v %= 100000; c.final_newline = v & 1; c.longname = v / 2; } c.lines.assign(f.begin() + 11, f.end()); return true; }
 static std::string cmdline(const CliCase &c) { std::string s = "asmline"; for (int m : c.modeflags) s += std::string(" ") + MODEFLAGS[m]; if (c.chunk) s += " -c " + std::to_string(c.chunk); if (c.brk) s += " -b " + std::to_string(c.brk); if (c.p) s += " -p"; if (c.r) s += " -r"; if (c.outkind == 1) s += " -P out.raw"; if (c.outkind == 2) s += " -o outname"; if (c.outkind == 3) s += " -P /nonexistent-dir/x"; s += c.from_stdin ? " < prog.asm" : " prog.asm"; return s; }
 
 struct CV { bool ok = true; std::string symptom, detail; };
 static CV check20(const CliCase &c) {
   CV v; auto bad = [&](const std::string &s, const std::string &d) { v.ok = false; v.symptom = s; v.detail = d; return v; };
-  std::string text = join(c.lines); if (!c.final_newline && !text.empty()) text.pop_back();
+  const std::string NL = c.sep == 1 ? "\r\n" : c.sep == 2 ? "\r" : "\n";
+  std::string text = join(c.lines, NL); if (!c.final_newline && !text.empty()) text.resize(text.size() - NL.size());
   // ---- in-process model: the option calls the flag documentation maps to, in the order main() applies them
   assemblyline_t a = asm_create_instance(nullptr, 0);
   int mov = -1, sib_all = -1, sib_swap = -1, sib_nb = -1;
@@ -69,7 +37,9 @@ static CV check20(const CliCase &c) {
   asm_destroy_instance(a);
   // ---- the real tool
   std::string dir = tmpdir(), src = dir + "/prog.asm", praw = dir + "/out.raw", oname = dir + "/outname";
-  if (c.longname) { std::string base(c.longname, 'n'); praw = dir + "/" + base + "_raw"; oname = dir + "/" + base; }
+  if (c.longname) { // names longer than a path component allows are spread over nested directories (asmline -o refuses dots, not slashes)
+    std::string base; int left = c.longname; std::string at = dir; while (left > 200) { std::string comp(180, 'd'); base += comp + "/"; at += "/" + comp; mkdir(at.c_str(), 0755); left -= 181; } base += std::string(left, 'n');
+    praw = dir + "/" + base + "_raw"; oname = dir + "/" + base; }
   { FILE *f = fopen(src.c_str(), "wb"); if (!f) return bad("harness", "cannot write source"); if (!text.empty()) fwrite(text.data(), 1, text.size(), f); fclose(f); }
   unlink(praw.c_str()); unlink((oname + ".bin").c_str());
   // half of the runs find an older, longer output file in place: it has to be replaced, not patched
@@ -117,17 +87,18 @@ void prop_c20(hz::Ctx &ctx) {
     if (progkind == 1) c.lines.insert(c.lines.begin() + r.below(c.lines.size() + 1), P.bad[r.below(P.bad.size())]);
     if (progkind == 2) { c.retval = r.next(); char b[64]; snprintf(b, sizeof b, "mov rax, 0x%llx", (unsigned long long)c.retval); c.lines.push_back(b); c.lines.push_back("ret"); }
     // raw lines of 100 and more characters (long comments, wide indentation): stdin and FILE must still agree
-    if (r.below(4) == 0) { size_t at = r.below(c.lines.size()); if (progkind != 2 || at + 2 < c.lines.size() || true) { int kind = (int)r.below(3); std::string &l = c.lines[at]; if (kind == 0) l += " ; " + std::string(80 + r.below(200), 'c'); else if (kind == 1) l = std::string(90 + r.below(150), ' ') + l; else l += std::string(100 + r.below(100), ' '); } }
+    if (r.below(4) == 0) { size_t at = r.below(c.lines.size()); if (progkind != 2 || at + 2 < c.lines.size() || true) { int kind = (int)r.below(3); std::string &l = c.lines[at]; static const int LEN[] = {80, 150, 230, 250, 256, 300, 500, 1000, 4090, 9000}; size_t len = (size_t)LEN[r.below(10)] + r.below(40); if (kind == 0) l += " ; " + std::string(len, 'c'); else if (kind == 1) l = std::string(len, ' ') + l; else l += std::string(len, ' '); } }
     // lines that emit nothing (comment in column 0, indented comment, blank, label) at random positions
     if (r.below(3) == 0) { int k = 1 + (int)r.below(3); static const char *NOISE[] = {"; comment", ";", "  ; indented comment", "", "label:", "   ", ";;; x"}; for (int j = 0; j < k; j++) c.lines.insert(c.lines.begin() + r.below(c.lines.size() + (progkind == 2 ? -1 : 1)), NOISE[r.below(7)]); }
-    c.longname = r.below(6) == 0 ? 80 + (int)r.below(60) : 0;
+    c.longname = r.below(6) == 0 ? (r.below(3) == 0 ? 240 + (int)r.below(30) : r.below(2) ? 80 + (int)r.below(60) : 300 + (int)r.below(500)) : 0;
+    c.sep = r.below(5) == 0 ? 1 + (int)r.below(2) : 0;
     c.p = outs & 1; c.r = progkind == 2 && (outs & 2); c.outkind = (outs >> 2) % 4; static const int CH[] = {0, 0, 0, 2, 3, 7, 16, 64}; c.chunk = CH[chunksel % 8]; static const int BK[] = {0, 0, 0, 2, 5, 16, 32, 4096}; c.brk = BK[brksel % 8];
     c.from_stdin = from_stdin; c.final_newline = nl; return c; },
     rc::gen::container<std::vector<int>>(range(0, 15)), rc::gen::container<std::vector<int>>(range(0, 1 << 20)), rc::gen::weightedElement<int>({{5, 0}, {2, 1}, {4, 2}}), range(0, 16), range(0, 8), range(0, 8), rc::gen::arbitrary<bool>(), range(0, 1 << 30), rc::gen::arbitrary<bool>());
   rc_rounds(ctx, "C20-cli", ctx.thorough() ? 600000 : 80000, 40, [&]() {
     CliCase c = *gen_case; std::string id = ser20(c); if (!ctx.begin(id, cmdline(c))) return;
     int groups = (c.modeflags.empty() ? 0 : 1) + (c.p || c.outkind ? 1 : 0) + (c.chunk || c.brk ? 1 : 0) + (c.r ? 1 : 0);
-    for (auto &l : c.lines) if (l.size() >= 100) { ctx.cls("line:100+chars"); break; } if (c.longname) ctx.cls("output:long-name"); if ((c.outkind == 1 || c.outkind == 2) && ((hz::fnv(ser20(c)) >> 5) & 1)) ctx.cls("output:stale-file-in-place");
+    for (auto &l : c.lines) if (l.size() >= 100) { ctx.cls("line:100+chars"); break; } if (c.longname) ctx.cls("output:long-name"); if (c.longname >= 250) ctx.cls("output:name-beyond-255"); if (c.sep) ctx.cls(c.sep == 1 ? "newline:crlf" : "newline:cr"); for (auto &l : c.lines) if (l.size() >= 255) { ctx.cls("line:255+chars"); break; } if ((c.outkind == 1 || c.outkind == 2) && ((hz::fnv(ser20(c)) >> 5) & 1)) ctx.cls("output:stale-file-in-place");
     for (auto &l : c.lines) if (l.empty() || l[0] == ';' || l.find(':') != std::string::npos || l.find_first_not_of(' ') == std::string::npos) { ctx.cls("program:has-non-code-lines"); break; }
     ctx.cls(c.from_stdin ? "source:stdin" : "source:file"); ctx.cls(std::string("program:") + (c.progkind == 0 ? "pool" : c.progkind == 1 ? "failing" : "executable")); if (c.p) ctx.cls("flag:-p"); if (c.r) ctx.cls("flag:-r"); if (c.chunk) ctx.cls("flag:-c"); if (c.brk) ctx.cls("flag:-b"); if (c.outkind == 1) ctx.cls("flag:-P"); if (c.outkind == 2) ctx.cls("flag:-o"); if (c.outkind == 3) ctx.cls("output:unwritable"); if (!c.modeflags.empty()) ctx.cls("flag:mode");
     if (groups >= 2 || c.progkind == 1) ctx.nontrivial(id);
